@@ -120,15 +120,10 @@ def ofTagOpt : Option Tag → Json
   | none => Json.null
   | some t => ofStr t
 def ofEff : Eff → Json
-  | .dbDeclare d t => Json.arr #["dbDeclare", ofDecl d, ofTagOpt t]
-  | .dbUndeclare s n v f => Json.arr #["dbUndeclare", Json.num s, ofStr n, ofStr v, ofStr f]
-  | .dbAssign s t n f v => Json.arr #["dbAssign", Json.num s, ofStr t, ofStr n, ofStr f, ofStr v]
-  | .dbUnassign s t n f => Json.arr #["dbUnassign", Json.num s, ofStr t, ofStr n, ofStr f]
-  | .memAdd d t => Json.arr #["memAdd", ofDecl d, ofTagOpt t]
-  | .memRemove s n v f => Json.arr #["memRemove", Json.num s, ofStr n, ofStr v, ofStr f]
-  | .memAssign s t n f v => Json.arr #["memAssign", Json.num s, ofStr t, ofStr n, ofStr f, ofStr v]
-  | .memUnassign s t n f => Json.arr #["memUnassign", Json.num s, ofStr t, ofStr n, ofStr f]
-  | .save s f => Json.arr #["save", Json.num s, ofStr f]
+  | .declare d t => Json.arr #["declare", ofDecl d, ofTagOpt t]
+  | .undeclare s n v f => Json.arr #["undeclare", Json.num s, ofStr n, ofStr v, ofStr f]
+  | .assign s t n f v => Json.arr #["assign", Json.num s, ofStr t, ofStr n, ofStr f, ofStr v]
+  | .unassign s t n f => Json.arr #["unassign", Json.num s, ofStr t, ofStr n, ofStr f]
   | .rmTree d => Json.arr #["rmTree", ofDir d]
 def ofCache (c : CacheFile) : Json :=
   Json.mkObj [("user", Json.num c.user), ("stack", Json.num c.stack), ("flavor", ofStr c.flav),
